@@ -8,7 +8,6 @@ package verif
 import (
 	"context"
 	"errors"
-	"fmt"
 	"io"
 	"net"
 	"sort"
@@ -161,36 +160,27 @@ func (s *Server) GC() error { return s.c.Cleaner().DeleteOld(context.Background(
 
 // StartServer starts internal/app on a free loopback port.
 func StartServer(cfg config.Config) (*Server, error) {
+	// the listener is created here and handed to the server: picking a free port and letting the
+	// server bind it later races with every other harness process on the machine
 	lis, err := net.Listen("tcp", "127.0.0.1:0")
 	if err != nil {
 		return nil, err
 	}
-	port := lis.Addr().(*net.TCPAddr).Port
-	lis.Close()
 
-	cfg.Port = port
+	cfg.Port = lis.Addr().(*net.TCPAddr).Port
 	ctx, cancel := context.WithCancel(context.Background())
 
 	a, err := app.New(ctx, cfg)
 	if err != nil {
 		cancel()
+		lis.Close()
 		return nil, err
 	}
 
-	s := &Server{Addr: fmt.Sprintf("127.0.0.1:%d", port), cancel: cancel, done: make(chan error, 1), stop: a.Stop, c: a.VerifContainer()}
-	go func() { s.done <- a.Run(ctx) }()
+	s := &Server{Addr: lis.Addr().String(), cancel: cancel, done: make(chan error, 1), stop: a.Stop, c: a.VerifContainer()}
+	go func() { s.done <- a.VerifServe(ctx, lis) }()
 
-	for i := 0; i < 2000; i++ {
-		conn, dErr := net.DialTimeout("tcp", s.Addr, 50*time.Millisecond)
-		if dErr == nil {
-			conn.Close()
-			return s, nil
-		}
-		time.Sleep(time.Millisecond)
-	}
-
-	s.Stop()
-	return nil, errors.New("verif: server did not start")
+	return s, nil
 }
 
 // Stop stops the server gracefully and closes its storage.
